@@ -153,3 +153,6 @@ def run(db, ctx):
     from . import C07
     common.shared_rule(db, ctx, C07.block_maximum, 'R3.7', 'the block maximum that gates the 8-bit pre-filter covers every row and every column of the block '
                        '(AVX2 max kernel: identity, row range, lane coverage, final reduction; generic: argmax scan over all cells) — shared with R7.1 / R7.4', ['R7.1', 'R7.4'])
+    from . import C04
+    common.shared_rule(db, ctx, C04.lookahead_rules, 'R3.8', 'the look-ahead rows and the row count Scanner::max relies on (configure_wrap / configure bookkeeping) '
+                       '— shared with R4.5 / R4.8', ['R4.5', 'R4.8'])
